@@ -1,6 +1,7 @@
 package main
 
 import (
+	"strconv"
 	"fmt"
 	"go/token"
 	"go/types"
@@ -337,6 +338,39 @@ func (e *Engine) intrinsic(st *State, f *Frame, x ssa.Value, callee *ssa.Functio
 		case "Errorf":
 			return ret(e.freshError(st, "fmt.Errorf@"+e.posStr(pos)))
 		case "Sprintf", "Sprint", "Sprintln":
+			// fmt.Sprintf("%v", x) with one operand: a string operand is returned as it is, a concrete integer or
+			// boolean operand is formatted; everything else is outside the supported fragment
+			if name == "Sprintf" && len(args) == 2 {
+				if fs, ok := e.strArg(st, args[0]); ok && (fs == "%v" || fs == "%s" || fs == "%d") {
+					if va, ok := args[1].(SliceV); ok && va.len.IsConst() && va.len.val == 1 {
+						if iv, ok := e.elemAt2(st, va, b.BV(64, 0)).(IfaceV); ok && iv.dyn != nil {
+							if bt, ok := iv.dyn.Underlying().(*types.Basic); ok {
+								switch {
+								case bt.Info()&types.IsString != 0 && fs != "%d":
+									if sv, ok := iv.v.(SliceV); ok {
+										return ret(sv)
+									}
+								case bt.Info()&types.IsInteger != 0 && fs != "%s":
+									if c, ok := constInt(iv.v); ok {
+										if bt.Info()&types.IsUnsigned != 0 {
+											t, _ := scalarOf(iv.v)
+											return ret(e.constString(strconv.FormatUint(t.val, 10)))
+										}
+										return ret(e.constString(strconv.FormatInt(c, 10)))
+									}
+								case bt.Info()&types.IsBoolean != 0 && fs == "%v":
+									if t, ok := scalarOf(iv.v); ok && t.IsConst() {
+										if t.val == 1 {
+											return ret(e.constString("true"))
+										}
+										return ret(e.constString("false"))
+									}
+								}
+							}
+						}
+					}
+				}
+			}
 			return ret(Poison{"fmt." + name + " result"})
 		case "Println", "Printf", "Print", "Fprintf", "Fprintln", "Fprint":
 			return ret(e.zeroResults(callee))
